@@ -1,20 +1,25 @@
 (* Diagram/SubDiagram.v -- the read-only operations of a ClassDiagram, with the rustworkx graph held in a heap
    cell so that `copy(self)` (a shallow copy) aliases it.
 
-   state: heap of graphs + the diagram objects alive (each holds the location of its _dependency_graph).
+   state: heap of graphs + heap of memo tables + the diagram objects alive.  Each object holds the location of its
+   _dependency_graph and of its memo table: the answers that the @lru_cache'd query methods keep per diagram
+   object (the cache key contains `self`, hashed by identity).  What one can observe of a diagram is its graph AND
+   the answers of its read-only queries; both are covered by the theorems.
    Operations (class_diagram.py):
      OpSub t ifn   to_subdiagram_without_inherited_associations(include_field_name=ifn) on object t:
                    result = copy(self); result._dependency_graph = self._dependency_graph.copy(); remove edges there
-     OpCopy t      copy.copy(diagram): a second object on the same cell
-     OpQuery t q   the queries and the rendering walk: they only read
-   [run_op_shallow] is the code before commit 9f76ed7 (no graph copy), kept as the regression witness. *)
+     OpCopy t      copy.copy(diagram): a second object on the same graph cell; a new identity, hence no cached answers
+     OpQuery t q   a query: answered from the object's memo table when cached there, else read off the graph (and
+                   remembered if the method is an lru_cache'd one)
+   [run_op_shallow] is the code before commit 9f76ed7 (no graph copy), kept as the regression witness.
+   [run_op_sharedmemo] is a variant in which the derived diagram inherits the memo table of its source (what a
+   per-diagram cache *attribute* does under copy(self)); it is refuted, to show what the theorem excludes. *)
 From Coq Require Import List Bool PArith ZArith Arith Lia.
 From Krrood Require Import Base.Sx Diagram.Ty Diagram.DiagramSpec.
 Import ListNotations.
 Local Open Scope nat_scope.
 
 Definition loc := nat.
-Record state := mk_state { heap : list graph; objs : list loc }.
 
 (* ---- rustworkx as used here: parallel edges are kept; get_edge_data(u,v) and remove_edge(u,v) act on the
         most recently added edge u->v that is still present; edge_list() is in insertion order ---- *)
@@ -71,10 +76,57 @@ Definition edges_to_remove (ifn : bool) (g : graph) : list (name * name) :=
 Definition sub_graph (ifn : bool) (g : graph) : graph :=
   mk_graph (g_nodes g) (fold_left (fun es uv => remove_edge es (fst uv) (snd uv)) (edges_to_remove ifn g) (g_edges g)).
 
-(* ---- queries: each is a function of the graph; none writes ---- *)
+(* ---- queries: each answer is a function of the graph ---- *)
 Inductive query :=
-| QNodes | QAssociations | QInheritance | QOutEdges (c : name) | QAncestors (c : name)
-| QAssocKeys (ifn : bool) | QNeighbours (c : name) (k : ekind) | QRender (with_assoc : bool).
+| QNodes | QAssociations | QInheritance
+| QOutEdges (c : name)                      (* get_out_edges / get_outgoing_relations / get_associations_with_condition *)
+| QOutNeighbours (c : name) (k : ekind)     (* get_outgoing_neighbors_with_relation_type *)
+| QInNeighbours (c : name) (k : ekind)      (* get_incoming_neighbors_with_relation_type *)
+| QOther.                                   (* parent_map, all_ancestors, assoc keys, role takers, rendering: called, answer not compared *)
+
+Definition ekind_eqb (a b : ekind) : bool := match a, b with EInh, EInh | EAssoc, EAssoc => true | _, _ => false end.
+Definition query_eqb (a b : query) : bool :=
+  match a, b with
+  | QNodes, QNodes | QAssociations, QAssociations | QInheritance, QInheritance | QOther, QOther => true
+  | QOutEdges c, QOutEdges d => Pos.eqb c d
+  | QOutNeighbours c k, QOutNeighbours d l | QInNeighbours c k, QInNeighbours d l => Pos.eqb c d && ekind_eqb k l
+  | _, _ => false
+  end.
+Lemma query_eqb_eq a b : query_eqb a b = true -> a = b.
+Proof.
+  destruct a, b; simpl; try discriminate; auto.
+  - intro H. apply Pos.eqb_eq in H. now subst.
+  - intro H. apply andb_true_iff in H as [H1 H2]. apply Pos.eqb_eq in H1. subst. destruct k, k0; try discriminate; auto.
+  - intro H. apply andb_true_iff in H as [H1 H2]. apply Pos.eqb_eq in H1. subst. destruct k, k0; try discriminate; auto.
+Qed.
+
+Definition edges_sx (es : list edge) : sx := SL (sx_sort (map edge_sx es)).
+Definition kind_is (k : ekind) (e : edge) : bool := ekind_eqb (e_kind e) k.
+(* the direct reading of a graph: what a query has to answer *)
+Definition answer (g : graph) (q : query) : sx :=
+  match q with
+  | QNodes => SL (map ZP (g_nodes g))
+  | QAssociations => edges_sx (filter is_assoc (g_edges g))
+  | QInheritance => edges_sx (filter is_inh (g_edges g))
+  | QOutEdges c =>
+      let es := filter (fun e => Pos.eqb (e_src e) c) (g_edges g) in
+      SL [edges_sx es; edges_sx es; edges_sx (filter is_assoc es)]
+  | QOutNeighbours c k =>
+      SL (sx_set (map (fun e => ZP (e_dst e)) (filter (fun e => Pos.eqb (e_src e) c && kind_is k e) (g_edges g))))
+  | QInNeighbours c k =>
+      SL (sx_set (map (fun e => ZP (e_src e)) (filter (fun e => Pos.eqb (e_dst e) c && kind_is k e) (g_edges g))))
+  | QOther => SL []
+  end.
+(* the methods decorated with @lru_cache *)
+Definition cached (q : query) : bool :=
+  match q with QOutEdges _ | QOutNeighbours _ _ | QInNeighbours _ _ => true | _ => false end.
+
+Definition memo := list (query * sx).
+Definition mlookup (m : memo) (q : query) : option sx :=
+  match find (fun e => query_eqb (fst e) q) m with Some e => Some (snd e) | None => None end.
+
+Record obj := mk_obj { o_graph : loc; o_memo : loc }.
+Record state := mk_state { heap : list graph; memos : list memo; objs : list obj }.
 
 Inductive op :=
 | OpSub (t : nat) (ifn : bool)
@@ -89,47 +141,89 @@ Fixpoint set_nth {A} (l : list A) (i : nat) (x : A) : list A :=
   end.
 
 Definition graph_at (s : state) (t : nat) : option graph :=
-  match nth_error (objs s) t with Some l => nth_error (heap s) l | None => None end.
+  match nth_error (objs s) t with Some o => nth_error (heap s) (o_graph o) | None => None end.
 
-(* the code as it is now *)
-Definition run_op (s : state) (o : op) : state :=
+(* a query on object o *)
+Definition do_query (s : state) (o : obj) (q : query) : state * sx :=
+  match nth_error (heap s) (o_graph o), nth_error (memos s) (o_memo o) with
+  | Some g, Some m =>
+      if cached q then
+        match mlookup m q with
+        | Some a => (s, a)
+        | None => let a := answer g q in
+                  (mk_state (heap s) (set_nth (memos s) (o_memo o) ((q, a) :: m)) (objs s), a)
+        end
+      else (s, answer g q)
+  | _, _ => (s, SL [])
+  end.
+
+(* the code as it is now; [share]: whether a derived diagram keeps the memo table of its source (it does not) *)
+Definition step (share : bool) (s : state) (o : op) : state * sx :=
   match o with
   | OpSub t ifn =>
-      match graph_at s t with
-      | Some g => mk_state (heap s ++ [sub_graph ifn g]) (objs s ++ [length (heap s)])
-      | None => s
+      match nth_error (objs s) t with
+      | Some ob =>
+          match nth_error (heap s) (o_graph ob) with
+          | Some g =>
+              if share
+              then (mk_state (heap s ++ [sub_graph ifn g]) (memos s) (objs s ++ [mk_obj (length (heap s)) (o_memo ob)]), SL [])
+              else (mk_state (heap s ++ [sub_graph ifn g]) (memos s ++ [[]])
+                             (objs s ++ [mk_obj (length (heap s)) (length (memos s))]), SL [])
+          | None => (s, SL [])
+          end
+      | None => (s, SL [])
       end
   | OpCopy t =>
       match nth_error (objs s) t with
-      | Some l => mk_state (heap s) (objs s ++ [l])
-      | None => s
+      | Some ob => (mk_state (heap s) (memos s ++ [[]]) (objs s ++ [mk_obj (o_graph ob) (length (memos s))]), SL [])
+      | None => (s, SL [])
       end
-  | OpQuery _ _ => s
+  | OpQuery t q =>
+      match nth_error (objs s) t with
+      | Some ob => do_query s ob q
+      | None => (s, SL [])
+      end
   end.
+Definition run_op (s : state) (o : op) : state := fst (step false s o).
 Definition run_ops (ops : list op) (s : state) : state := fold_left run_op ops s.
-Definition init (g : graph) : state := mk_state [g] [0].
+Definition init (g : graph) : state := mk_state [g] [[]] [mk_obj 0 0].
+(* the answer a query gives after a history *)
+Definition ask (s : state) (t : nat) (q : query) : sx := snd (step false s (OpQuery t q)).
 
-(* the code before the repair: the sub-diagram is carved out of the shared cell *)
+(* variant: the derived diagram shares the memo table of its source *)
+Definition run_op_sharedmemo (s : state) (o : op) : state := fst (step true s o).
+
+(* the code before the repair 9f76ed7: the sub-diagram is carved out of the shared graph cell *)
 Definition run_op_shallow (s : state) (o : op) : state :=
   match o with
   | OpSub t ifn =>
       match nth_error (objs s) t with
-      | Some l => match nth_error (heap s) l with
-                  | Some g => mk_state (set_nth (heap s) l (sub_graph ifn g)) (objs s ++ [l])
-                  | None => s end
+      | Some ob => match nth_error (heap s) (o_graph ob) with
+                   | Some g => mk_state (set_nth (heap s) (o_graph ob) (sub_graph ifn g)) (memos s ++ [[]])
+                                        (objs s ++ [mk_obj (o_graph ob) (length (memos s))])
+                   | None => s end
       | None => s
       end
   | _ => run_op s o
   end.
 
-(* ---- theorems ---- *)
+(* ---- theorems: graphs ---- *)
+Lemma do_query_heap s o q : heap (fst (do_query s o q)) = heap s /\ objs (fst (do_query s o q)) = objs s.
+Proof.
+  unfold do_query. destruct (nth_error (heap s) (o_graph o)); [|auto].
+  destruct (nth_error (memos s) (o_memo o)); [|auto].
+  destruct (cached q); [|auto]. destruct (mlookup m q); auto.
+Qed.
+
 Lemma run_op_preserves : forall s o i g, nth_error (heap s) i = Some g -> nth_error (heap (run_op s o)) i = Some g.
 Proof.
-  intros s o i g H. destruct o as [t ifn|t|t q]; simpl.
-  - destruct (graph_at s t); simpl; auto. rewrite nth_error_app1; auto.
+  intros s o i g H. unfold run_op. destruct o as [t ifn|t|t q]; simpl.
+  - destruct (nth_error (objs s) t) as [ob|]; simpl; auto.
+    destruct (nth_error (heap s) (o_graph ob)); simpl; auto. rewrite nth_error_app1; auto.
     apply nth_error_Some. congruence.
   - destruct (nth_error (objs s) t); simpl; auto.
-  - auto.
+  - destruct (nth_error (objs s) t) as [ob|]; simpl; auto.
+    destruct (do_query_heap s ob q) as [E _]. now rewrite E.
 Qed.
 
 (* no sequence of read-only operations, applied to the diagram or to anything derived from it, changes any
@@ -140,23 +234,148 @@ Proof.
   apply IH. now apply run_op_preserves.
 Qed.
 
-Lemma run_op_objs_prefix : forall s o t l, nth_error (objs s) t = Some l -> nth_error (objs (run_op s o)) t = Some l.
+Lemma run_op_objs_prefix : forall s o t ob, nth_error (objs s) t = Some ob -> nth_error (objs (run_op s o)) t = Some ob.
 Proof.
-  intros s o t l H. destruct o as [t' ifn|t'|t' q]; simpl; auto.
-  - destruct (graph_at s t'); simpl; auto. rewrite nth_error_app1; auto. apply nth_error_Some. congruence.
+  intros s o t ob H. unfold run_op. destruct o as [t' ifn|t'|t' q]; simpl; auto.
+  - destruct (nth_error (objs s) t') as [ob'|]; simpl; auto.
+    destruct (nth_error (heap s) (o_graph ob')); simpl; auto. rewrite nth_error_app1; auto. apply nth_error_Some. congruence.
   - destruct (nth_error (objs s) t'); simpl; auto. rewrite nth_error_app1; auto. apply nth_error_Some. congruence.
+  - destruct (nth_error (objs s) t') as [ob'|]; simpl; auto.
+    destruct (do_query_heap s ob' q) as [_ E]. now rewrite E.
 Qed.
 
 Lemma views_pure_obj : forall ops s t g, graph_at s t = Some g -> graph_at (run_ops ops s) t = Some g.
 Proof.
   induction ops as [|o ops IH]; intros s t g H; simpl; auto.
   apply IH. unfold graph_at in *.
-  destruct (nth_error (objs s) t) as [l|] eqn:E; try discriminate.
-  rewrite (run_op_objs_prefix s o t l E). now apply run_op_preserves.
+  destruct (nth_error (objs s) t) as [ob|] eqn:E; try discriminate.
+  rewrite (run_op_objs_prefix s o t ob E). now apply run_op_preserves.
 Qed.
 
 Corollary source_intact : forall g ops, graph_at (run_ops ops (init g)) 0 = Some g.
 Proof. intros. apply views_pure_obj. reflexivity. Qed.
+
+(* ---- theorems: answers ---- *)
+Lemma nth_error_set_nth_eq {A} (l : list A) i x : i < length l -> nth_error (set_nth l i x) i = Some x.
+Proof. revert i. induction l as [|y l IH]; intros [|i] H; simpl in *; try lia; auto. apply IH. lia. Qed.
+Lemma nth_error_set_nth_neq {A} (l : list A) i j x : i <> j -> nth_error (set_nth l i x) j = nth_error l j.
+Proof. revert i j. induction l as [|y l IH]; intros [|i] [|j] H; simpl; auto; try congruence. Qed.
+Lemma set_nth_length {A} (l : list A) i x : length (set_nth l i x) = length l.
+Proof. revert i. induction l as [|y l IH]; intros [|i]; simpl; auto. Qed.
+
+(* every memo table belongs to one object, lies inside the heap, and holds only direct readings of that object's graph *)
+Record inv (s : state) : Prop := {
+  inv_bound : forall i ob, nth_error (objs s) i = Some ob -> o_memo ob < length (memos s) /\ o_graph ob < length (heap s);
+  inv_own : forall i j ob ob', nth_error (objs s) i = Some ob -> nth_error (objs s) j = Some ob' ->
+              o_memo ob = o_memo ob' -> i = j;
+  inv_sound : forall i ob m g q a, nth_error (objs s) i = Some ob -> nth_error (memos s) (o_memo ob) = Some m ->
+              nth_error (heap s) (o_graph ob) = Some g -> mlookup m q = Some a -> a = answer g q }.
+
+Lemma inv_init g : inv (init g).
+Proof.
+  split; simpl.
+  - intros [|i] ob H; simpl in H; [injection H as <-; simpl; lia | destruct i; discriminate].
+  - intros [|i] [|j] ob ob' H1 H2 _; auto; simpl in *; try (destruct i; discriminate); destruct j; discriminate.
+  - intros [|i] ob m g' q a H; simpl in H; [|destruct i; discriminate]. injection H as <-. simpl.
+    intro Hm. injection Hm as <-. intros _ Hl. discriminate Hl.
+Qed.
+
+Lemma nth_error_snoc {A} (l : list A) x i y : nth_error (l ++ [x]) i = Some y ->
+  (i < length l /\ nth_error l i = Some y) \/ (i = length l /\ y = x).
+Proof.
+  intro H. destruct (Nat.lt_ge_cases i (length l)) as [L|L].
+  - left. rewrite nth_error_app1 in H; auto.
+  - right. rewrite nth_error_app2 in H; auto. destruct (i - length l) eqn:E.
+    + simpl in H. injection H as <-. split; auto. lia.
+    + simpl in H. destruct n; discriminate.
+Qed.
+
+Lemma mlookup_cons q0 a0 m q : mlookup ((q0, a0) :: m) q = if query_eqb q0 q then Some a0 else mlookup m q.
+Proof. unfold mlookup. simpl. destruct (query_eqb q0 q); reflexivity. Qed.
+
+(* adding a new object with a fresh, empty memo table *)
+Lemma inv_new_obj s hp' gl : inv s ->
+  (forall i g, nth_error (heap s) i = Some g -> nth_error hp' i = Some g) -> length (heap s) <= length hp' ->
+  gl < length hp' ->
+  inv (mk_state hp' (memos s ++ [[]]) (objs s ++ [mk_obj gl (length (memos s))])).
+Proof.
+  intros [B O S] Hh Hl Hg. split; simpl.
+  - intros i ob H. rewrite app_length. simpl. apply nth_error_snoc in H as [[L H]|[E ->]].
+    + destruct (B i ob H). lia.
+    + simpl. lia.
+  - intros i j ob ob' H1 H2 E.
+    apply nth_error_snoc in H1 as [[L1 H1]|[E1 ->]]; apply nth_error_snoc in H2 as [[L2 H2]|[E2 ->]]; simpl in *.
+    + eauto.
+    + destruct (B i ob H1). lia.
+    + destruct (B j ob' H2). lia.
+    + congruence.
+  - intros i ob m g q a H Hm Hgr Hl'. apply nth_error_snoc in H as [[L H]|[E ->]].
+    + destruct (B i ob H) as [B1 B2]. rewrite nth_error_app1 in Hm by lia.
+      destruct (nth_error (heap s) (o_graph ob)) as [g'|] eqn:G.
+      * rewrite (Hh _ _ G) in Hgr. injection Hgr as <-. eapply S; eauto.
+      * apply nth_error_None in G. lia.
+    + simpl in Hm. rewrite nth_error_app2 in Hm by lia. rewrite Nat.sub_diag in Hm. simpl in Hm.
+      injection Hm as <-. discriminate Hl'.
+Qed.
+
+Lemma inv_step s o : inv s -> inv (run_op s o).
+Proof.
+  intros I. unfold run_op. destruct o as [t ifn|t|t q]; simpl.
+  - destruct (nth_error (objs s) t) as [ob|] eqn:E; simpl; auto.
+    destruct (nth_error (heap s) (o_graph ob)) as [g|] eqn:G; simpl; auto.
+    apply inv_new_obj; auto.
+    + intros i g' H. rewrite nth_error_app1; auto. apply nth_error_Some. congruence.
+    + rewrite app_length. simpl. lia.
+    + rewrite app_length. simpl. lia.
+  - destruct (nth_error (objs s) t) as [ob|] eqn:E; simpl; auto.
+    apply inv_new_obj; auto. destruct I as [B _ _]. destruct (B t ob E). lia.
+  - destruct (nth_error (objs s) t) as [ob|] eqn:E; simpl; auto.
+    unfold do_query.
+    destruct (nth_error (heap s) (o_graph ob)) as [g|] eqn:G; simpl; auto.
+    destruct (nth_error (memos s) (o_memo ob)) as [m|] eqn:M; simpl; auto.
+    destruct (cached q); simpl; auto. destruct (mlookup m q) eqn:L; simpl; auto.
+    destruct I as [B O S]. split; simpl.
+    + intros i ob' H. rewrite set_nth_length. eauto.
+    + eauto.
+    + intros i ob' m' g' q' a H Hm Hg Hl.
+      destruct (Nat.eq_dec (o_memo ob') (o_memo ob)) as [Eq|Ne].
+      * assert (i = t) by (eapply O; eauto). subst i. rewrite E in H. injection H as <-.
+        rewrite nth_error_set_nth_eq in Hm by (destruct (B t ob E); lia). injection Hm as <-.
+        rewrite G in Hg. injection Hg as <-. rewrite mlookup_cons in Hl.
+        destruct (query_eqb q q') eqn:Q.
+        -- apply query_eqb_eq in Q. subst q'. now injection Hl as <-.
+        -- eapply S; eauto.
+      * rewrite nth_error_set_nth_neq in Hm by auto. eapply S; eauto.
+Qed.
+
+Lemma inv_run ops : forall s, inv s -> inv (run_ops ops s).
+Proof. induction ops as [|o ops IH]; simpl; intros s I; auto. apply IH. now apply inv_step. Qed.
+
+(* in a state reached by read-only operations every query answers with the direct reading of the object's graph *)
+Lemma ask_sound s t q g : inv s -> graph_at s t = Some g -> ask s t q = answer g q.
+Proof.
+  intros [B O S] H. unfold ask, graph_at in *. simpl.
+  destruct (nth_error (objs s) t) as [ob|] eqn:E; [|discriminate]. unfold do_query. rewrite H.
+  destruct (nth_error (memos s) (o_memo ob)) as [m|] eqn:M.
+  - destruct (cached q); auto. destruct (mlookup m q) eqn:L; simpl; auto. eapply S; eauto.
+  - apply nth_error_None in M. destruct (B t ob E). lia.
+Qed.
+
+(* C17, views, over observations: after any sequence of read-only operations on the diagram and on anything derived
+   from it -- queries on the views first, then on the source, or in any other order -- the source still has the
+   graph it had, and every query on it answers what that graph says *)
+Theorem source_observations_intact : forall g ops,
+  graph_at (run_ops ops (init g)) 0 = Some g /\ forall q, ask (run_ops ops (init g)) 0 q = answer g q.
+Proof.
+  intros g ops. split; [apply source_intact|]. intro q. apply ask_sound.
+  - apply inv_run, inv_init.
+  - apply source_intact.
+Qed.
+
+(* the same for every object: what it answers is what its own graph says *)
+Theorem observations_consistent : forall g ops t gt,
+  graph_at (run_ops ops (init g)) t = Some gt -> forall q, ask (run_ops ops (init g)) t q = answer gt q.
+Proof. intros g ops t gt H q. apply ask_sound; auto. apply inv_run, inv_init. Qed.
 
 (* what the derived view is: same nodes, every inheritance edge kept, only association edges dropped *)
 Lemma remove_first_incl u v es e : In e (remove_first u v es) -> In e es.
@@ -174,23 +393,17 @@ Proof. reflexivity. Qed.
 
 (* ---- printing for the correspondence check ---- *)
 Definition state_sx (s : state) : sx :=
-  SL (map (fun l => match nth_error (heap s) l with Some g => graph_sx g | None => SL [] end) (objs s)).
-(* snapshot of every live diagram object after every operation *)
-Fixpoint trace (run : state -> op -> state) (ops : list op) (s : state) : list sx :=
+  SL (map (fun o => match nth_error (heap s) (o_graph o) with Some g => graph_sx g | None => SL [] end) (objs s)).
+(* per operation: the answer, and for the operations that create an object the snapshot of every live object
+   (a query leaves every graph as it was: run_op_preserves) *)
+Fixpoint trace (share : bool) (ops : list op) (s : state) : list sx :=
   match ops with
   | [] => []
-  | o :: ops' => let s' := run s o in state_sx s' :: trace run ops' s'
+  | o :: ops' =>
+      let r := step share s o in
+      SL (snd r :: match o with OpQuery _ _ => [] | _ => [state_sx (fst r)] end) :: trace share ops' (fst r)
   end.
-Definition trace_sx (g : graph) (ops : list op) : sx := SL (trace run_op ops (init g)).
-Definition trace_shallow_sx (g : graph) (ops : list op) : sx := SL (trace run_op_shallow ops (init g)).
-(* Spec of the views part: the source (object 0) reads the same after every operation *)
-Definition source_trace_spec (g : graph) (ops : list op) : sx := SL (map (fun _ => graph_sx g) ops).
-Definition source_trace (run : state -> op -> state) (g : graph) (ops : list op) : sx :=
-  SL ((fix go ops s := match ops with
-                       | [] => []
-                       | o :: ops' => let s' := run s o in
-                           match graph_at s' 0 with Some g' => graph_sx g' | None => SL [] end :: go ops' s'
-                       end) ops (init g)).
+Definition trace_sx (g : graph) (ops : list op) : sx := SL (trace false ops (init g)).
 
 (* regression witness: A has b: B; A2(A) inherits it.  Before the repair the call removed A2 -> B from the source. *)
 Definition witness_graph : graph :=
@@ -204,3 +417,9 @@ Lemma witness_now_intact :
   /\ graph_at (run_ops [OpSub 0 false] (init witness_graph)) 1
      = Some (mk_graph [1; 2; 3]%positive [mk_edge EInh 1 3 1; mk_edge EAssoc 1 2 5]%positive).
 Proof. vm_compute. split; reflexivity. Qed.
+(* a memo table shared between a diagram and its sub-diagram: asking the view first poisons the source's answer,
+   although the source's graph is untouched *)
+Lemma sharedmemo_refuted :
+  let s := fold_left run_op_sharedmemo [OpSub 0 false; OpQuery 1 (QOutEdges 3%positive)] (init witness_graph) in
+  graph_at s 0 = Some witness_graph /\ snd (step true s (OpQuery 0 (QOutEdges 3%positive))) <> answer witness_graph (QOutEdges 3%positive).
+Proof. vm_compute. split; [reflexivity | discriminate]. Qed.
